@@ -2,6 +2,7 @@ package main
 
 import (
 	"fmt"
+	"go/token"
 	"go/types"
 	"sort"
 
@@ -136,4 +137,106 @@ func ruleTblFill(p *Prog, r *Report) {
 		}
 	}
 	r.Extra("tblfill_stores_not_of_the_fill_form", skipped)
+}
+
+// PIX16 (C19): 16-bit samples in Pix are big-endian.
+//
+// image.RGBA64, NRGBA64 and Gray16 store each sample high byte first. A converter (or a helper it calls with a window
+// of Pix) that assembles a 16-bit value from two bytes of a []uint8 as lo | hi<<8 must take the byte at the lower
+// index as the high one. Instances: in the imagehash packages, every `x | y<<8` (or +) over two loads s[i], s[j] of
+// one byte slice with constant indices, in a function that has a parameter of one of those image types or is called
+// from one with a window of its Pix. Samples promoted from 8-bit data have equal bytes, so tests on such images
+// cannot tell.
+func rulePix16(p *Prog, r *Report) {
+	r.Explain("PIX16: wherever a function of the imagehash packages that handles *image.RGBA64, *image.NRGBA64 or *image.Gray16 (or a helper it hands a window of Pix) assembles a 16-bit sample from two bytes of one slice, the byte at the lower index is the one shifted left by 8: the samples are stored big-endian.")
+	hash, err := p.HashEntries()
+	if err != nil {
+		r.Fatal(err.Error())
+		return
+	}
+	is16 := func(t types.Type) bool {
+		switch t.String() {
+		case "*image.RGBA64", "*image.NRGBA64", "*image.Gray16":
+			return true
+		}
+		return false
+	}
+	fns := hashPkgFns(p, hash)
+	deep := map[*ssa.Function]bool{}
+	for _, f := range fns {
+		for _, prm := range f.Params {
+			if is16(prm.Type()) {
+				deep[f] = true
+			}
+		}
+	}
+	for _, f := range fns {
+		if !deep[f] {
+			continue
+		}
+		eachCall(f, func(site ssa.CallInstruction) {
+			if sc := site.Common().StaticCallee(); sc != nil && isLibFn(sc) {
+				for _, a := range site.Common().Args {
+					if typeStr(a.Type()) == "[]uint8" || typeStr(a.Type()) == "[]byte" {
+						deep[sc] = true
+					}
+				}
+			}
+		})
+	}
+	byteAt := func(v ssa.Value) (ssa.Value, int64, bool) {
+		for i := 0; i < 3; i++ {
+			if cv, ok := v.(*ssa.Convert); ok {
+				v = cv.X
+			}
+		}
+		ld, ok := v.(*ssa.UnOp)
+		if !ok || ld.Op != token.MUL {
+			return nil, 0, false
+		}
+		ia, ok := ld.X.(*ssa.IndexAddr)
+		if !ok {
+			return nil, 0, false
+		}
+		k, ok := constInt(ia.Index)
+		if !ok {
+			return nil, 0, false
+		}
+		return ia.X, k, true
+	}
+	n := 0
+	for _, f := range fns {
+		if !deep[f] {
+			continue
+		}
+		eachInstr(f, func(_ *ssa.BasicBlock, _ int, in ssa.Instruction) {
+			bo, ok := in.(*ssa.BinOp)
+			if !ok || (bo.Op != token.OR && bo.Op != token.ADD) {
+				return
+			}
+			for _, pr := range [][2]ssa.Value{{bo.X, bo.Y}, {bo.Y, bo.X}} {
+				sh, ok := pr[1].(*ssa.BinOp)
+				if !ok || sh.Op != token.SHL {
+					continue
+				}
+				if k, ok := constInt(sh.Y); !ok || k != 8 {
+					continue
+				}
+				sLo, iLo, ok1 := byteAt(pr[0])
+				sHi, iHi, ok2 := byteAt(sh.X)
+				if !ok1 || !ok2 || sLo != sHi {
+					continue
+				}
+				n++
+				key := fmt.Sprintf("%s | 16-bit sample from bytes %d and %d", fnName(f), iHi, iLo)
+				at := p.posStr(bo.Pos())
+				if iHi < iLo {
+					r.OK("PIX16", key, at, "the byte at the lower index is the high byte")
+				} else {
+					r.Bad("PIX16", key, at, fmt.Sprintf("the byte at index %d is taken as the high byte and the one at %d as the low byte: Pix holds 16-bit samples high byte first, so every sample whose two bytes differ is read byte-swapped and the luminance is not that of the pixel", iHi, iLo))
+				}
+			}
+		})
+	}
+	r.Extra("pix16_sample_assemblies", n)
 }
